@@ -219,6 +219,14 @@ func (ch c17) Run(c *core.Ctx) {
 		for d := rng.Intn(rdepth + 1); d > 0; d-- {
 			spec.Wraps = append(spec.Wraps, c17wrap(core.Pick(rng, c17kinds), rng, rng.Intn(4)))
 		}
+		if rng.Intn(40) == 0 {
+			// the decorations sit deep in the chain: 15 .. 300 layers of context on top of them, as an error
+			// handed up through a recursive evaluator collects
+			for d := core.Pick(rng, []int{15, 16, 17, 31, 32, 33, 63, 64, 65, 100, 127, 128, 129, 255, 256, 300}); d > 0; d-- {
+				spec.Wraps = append(spec.Wraps, hs.Wrap{K: 'w', S: fmt.Sprintf("l%d", d)})
+			}
+			c.Count("deep_chains", 1)
+		}
 		runSpec(spec, i)
 	}
 	// shared sentinel errors: one decorated error value is decorated further in several
